@@ -133,8 +133,7 @@ def run_check(ctx, args):
         ch = [f"<fingerprints unavailable: {e}>"]
     files = core.anchor_files(prop) + ["nutree/common.py"]
     ctx.changed = [c for c in ch if c.split("::")[0] in files or c.startswith("<")]
-    if ctx.changed and ctx.tier == "quick" and os.environ.get("VERIF_NO_ESCALATION") != "1":
-        ctx.escalated = True
+    escalate = bool(ctx.changed) and ctx.tier == "quick" and os.environ.get("VERIF_NO_ESCALATION") != "1"
 
     # 3. correspondence + oracle (doubles as the failing-input search)
     cov = None
@@ -165,6 +164,17 @@ def run_check(ctx, args):
             return 0 if res.get("property_holds") else 1
         try:
             out = mod.run(ctx)
+            if escalate and not out.oracle_failures and not out.disagreements and not ctx.search:
+                # the complete quick pass found nothing on the changed code: a second pass with the thorough sizes, other
+                # random choices and a bounded time budget
+                import random as _random
+
+                first = out
+                ctx.escalated = True
+                ctx.t0 = time.time()
+                ctx.rng = _random.Random((ctx.seed * 1000003 + 7919) ^ core.hash_str(prop))
+                out = mod.run(ctx)
+                out.absorb(first)
         except core.MachineryError:
             raise
         except Exception as e:  # noqa
